@@ -37,7 +37,12 @@ fn slot(r: &mut Rng) -> u32 {
 fn elem_kind(r: &mut Rng, tr: u32, zt: u32, pl: u32) -> ElemKind {
     let x = r.below(tr + zt + pl);
     if x < tr {
-        ElemKind::Tr
+        // one in six tracked runs uses the over-aligned shell
+        if r.chance(1, 6) {
+            ElemKind::Al
+        } else {
+            ElemKind::Tr
+        }
     } else if x < tr + zt {
         ElemKind::Zt
     } else {
@@ -80,7 +85,7 @@ pub fn gen_op(r: &mut Rng, kind: OpKind) -> Op {
         VecToArr | VecToBx => vec![slot(r), r.below(4), len_idx(r)],
         VitNext => vec![slot(r), r.below(2), r.below(2)],
         BoxArrMacro => vec![r.below(8)],
-        BuilderRun => vec![len_idx(r), r.below(10), r.below(2)],
+        BuilderRun => vec![len_idx(r), r.below(10), r.below(4)],
         ConsumerRun => vec![slot(r), r.below(10)],
         DropObj => vec![r.pick(&[0u32, 0, 1, 1, 2, 3, 4, 5]), slot(r)],
         ReleaseLoose => vec![r.below(12)],
